@@ -194,7 +194,17 @@ class FrameInterp(Interp):
             if short == "split_at":
                 mid = add(lo0, self.to_int(args[1]))
                 if hi0 is None:
-                    raise Undecided("split_at on the open input")
+                    # the open input: fine exactly when mid <= LEN is known on this path
+                    cnd = self.compare("Ge", Sym(1), mid)
+                    if isinstance(cnd, UBool):
+                        cnd = self.decide(st, cnd)
+                    if cnd is None:
+                        raise Undecided("split_at(%s) on the input is not covered by a length test on this path" % (mid,))
+                    if not cnd:
+                        raise Panic("split_at beyond the end of the input")
+                    if self.compare("Le", lo0, mid) != 1:
+                        raise Panic("split_at before the start of the slice")
+                    return Tup([Ref(("slice", lo0, mid)), Ref(("slice", mid, None))])
                 if self.compare("Le", mid, hi0) != 1 or self.compare("Le", lo0, mid) != 1:
                     raise Panic("split_at beyond the end of the slice")
                 return Tup([Ref(("slice", lo0, mid)), Ref(("slice", mid, hi0))])
